@@ -206,3 +206,54 @@ def c20(ctx):
     ctx.rule = ("all 15 status-named constructors, all 28 HttpError variants (I/O payloads carrying a path and CR/LF), "
                 "each mapped response serialised and its status line read back; every status 100..999 through a "
                 "loopback HttpConn (close header and write-side shutdown iff 5xx)")
+
+
+# ---------------------------------------------------------------------------------- C04 C09 C10
+reg("exchange-gen", "Trace_Exchange")
+reg("limits", "Trace_Exchange")
+
+
+def _c10_reason(why):
+    t = str(why)
+    return "temp files left" in t or "did not end" in t or "SpecProperty" in t
+
+
+@prop("C04")
+def c04(ctx):
+    ctx.mc("MC_Exchange", "MC_Exchange" if ctx.quick else "MC_Exchange2", workers=12, timeout=3000)
+    tr = ctx.drive("exchange-gen", n=1500 if ctx.quick else 30000, timeout=3000)
+    ctx.validate("Trace_Exchange", tr, "exchange-gen", shards=8 if ctx.quick else 12, timeout=3000)
+    ctx.rule = ("random histories of 1..12 requests per connection drawn from {no body, small body, body above the "
+                "in-memory threshold, unknown-length body, Expect, malformed} x handler answers {normal 2xx-5xx, "
+                "fetch-body(M), drop, panic} x client schedules {single write, random fragments with pauses, "
+                "byte-at-a-time, ping-pong} against a real HttpServerBuilder::spawn server; events come from servlin's "
+                "hook log (ReqRead, handler call, response written, bytes copied, connection end) in hook order")
+    ctx.assumptions += ["when the server closes a connection while client bytes are still unread, TCP may reset it and "
+                        "the client may lose response bytes: the transcript then only has to be a prefix of the "
+                        "responses the hook log shows were written"]
+
+
+@prop("C09")
+def c09(ctx):
+    ctx.mc("MC_Exchange", workers=12)
+    tr = ctx.drive("limits", thorough=0 if ctx.quick else 1, timeout=3000)
+    ctx.validate("Trace_Exchange", tr, "limits", shards=8, keep=lambda w: not _c10_reason(w) or "SpecProperty" in str(w))
+    ctx.exhaustive = True
+    ctx.rule = ("cross product S in {0,1,100,65536} x M in {0,1,S-1,S,S+1,70000,2^63,2^64-1} x L in {0,1,S-1,S,S+1,M-1,"
+                "M,M+1,M+2} x declared/undeclared x Expect x cache dir on/off (lengths above 70002 are only declared, "
+                "never sent), plus client disconnects at offset classes; limits are decimal digit tuples in the spec")
+
+
+@prop("C10")
+def c10(ctx):
+    ctx.mc("MC_Exchange", workers=12)
+    tr = ctx.drive("limits", thorough=0 if ctx.quick else 1, timeout=3000)
+    ctx.validate("Trace_Exchange", tr, "limits", shards=8, keep=_c10_reason)
+    ctx.level = "fault_enumeration"
+    ctx.exhaustive = True
+    ctx.rule = ("uploads of known and unknown length cut by client disconnect at offset classes {0, 1, mid, 8192, "
+                "len-1} x over-limit x handler outcome after receipt {normal, 5xx, drop, panic, fetch-again} x cache "
+                "dir removed x 1..4 concurrent uploads; the cache directory is listed after the hook log shows the "
+                "connection task ended; MC_Exchange checks NoLeak at every step of the multi-step upload incl. "
+                "disk-write failure")
+    ctx.assumptions += ["disk-write failure is explored in the model only (RLIMIT_FSIZE injection is not built)"]
